@@ -67,7 +67,8 @@ func writeEvidenceFile(b *build, a *agg, prop, tier string, seed uint64, violati
 		"infrastructure_failures": len(a.infra),
 		"real_components":         []string{"pkg/parser", "internal/scanner", "internal/php5", "internal/php7", "internal/position", "pkg/token", "pkg/position", "pkg/ast", "pkg/version", "pkg/errors", "pkg/conf", "pkg/visitor/printer", "pkg/visitor/dumper", "pkg/visitor/traverser", "pkg/visitor/nsresolver (all rebuilt from /repo's working tree, instrumented, -race)"},
 		"stub_components":         stubs(prop),
-		"instrumentation":         map[string]interface{}{"knob": b.instr.Knob, "sync_rewritten": b.instr.SyncRewrite, "go_statements": b.instr.GoStmts, "channel_ops_wrapped": len(b.instr.ChanWrapped), "not_wrappable": b.instr.ChanOps},
+		"cli_real_main":           cliState(b),
+		"instrumentation":         map[string]interface{}{"cli_redirected": b.instr.CLI, "knob": b.instr.Knob, "sync_rewritten": b.instr.SyncRewrite, "go_statements": b.instr.GoStmts, "channel_ops_wrapped": len(b.instr.ChanWrapped), "not_wrappable": b.instr.ChanOps},
 		"budget":                  map[string]interface{}{"runs_requested": cfg.runs, "wall_budget_s": cfg.budget.Seconds()},
 		"repo_head":               b.head,
 		"repo_worktree_diff_hash": b.diff,
@@ -104,9 +105,16 @@ func writeEvidenceFile(b *build, a *agg, prop, tier string, seed uint64, violati
 func stubs(prop string) []string {
 	switch prop {
 	case "C11":
-		return []string{"cmd/php-parser main: scenario B models its goroutine topology (producer, K parser workers, one consumer, bounded queues) in the harness", "Go scheduler: replaced by the run-token scheduler for simulated tasks", "file system / stdout: absent (no property gives them an oracle)"}
+		return []string{"cmd/php-parser: scenario C runs its real main function, worker goroutines, channels and WaitGroup; only process-global facilities are redirected (flag -> per-invocation FlagSet, os.Exit -> halt of the simulated program, os.Stdout/Stderr, fmt.Print*, log.* -> captured streams, runtime.GOMAXPROCS -> worker count of the scenario); scenario B additionally models the same topology in the harness", "Go scheduler: replaced by the run-token scheduler for simulated tasks", "file system: real files in a per-run scratch directory, no faults injected (no property gives file-system faults an oracle)", "github.com/pkg/profile: linked, never started (profiling flags are never drawn)"}
 	case "C13":
 		return []string{"io.Writer: simulated, fault-injecting", "Go scheduler: one simulated task"}
 	}
 	return []string{"Go scheduler: replaced by the run-token scheduler for simulated tasks"}
+}
+
+func cliState(b *build) string {
+	if b.cliSkipped != "" {
+		return "skipped(" + b.cliSkipped + ")"
+	}
+	return "simulated (scenario C)"
 }
